@@ -169,7 +169,8 @@ func newTree(kind, variant string) treeDrv {
 	switch {
 	case kind == "alpha":
 		if variant == "bytes" {
-			return numDrv(art.NewAlphaSortedTree[[]byte, int](), xbytes, xhex)
+			// in -buf mode (C13) the key is a sub-slice of a sentinel-filled, reused caller buffer
+			return numDrv(art.NewAlphaSortedTree[[]byte, int](), func(s string) []byte { return bufKey(xbytes(s)) }, xhex)
 		}
 		return numDrv(art.NewAlphaSortedTree[string, int](),
 			func(s string) string { return string(xbytes(s)) }, func(k string) string { return xhex([]byte(k)) })
@@ -179,7 +180,7 @@ func newTree(kind, variant string) treeDrv {
 		switch parts[0] {
 		case "bytes":
 			return numDrv(art.NewCollationSortedTree[[]byte, int](art.WithCollator[[]byte, int](c)),
-				func(s string) []byte { return xbytes(collOrig(s)) }, xhex)
+				func(s string) []byte { return bufKey(xbytes(collOrig(s))) }, xhex)
 		case "runes":
 			// WithCollator is declared for chars only: []rune trees keep the default (root) collator
 			return numDrv(art.NewCollationSortedTree[[]rune, int](),
